@@ -1,7 +1,7 @@
 PROP = {
     "lean_modules": ["GunYu.Props.C07"],
     "audit_namespaces": ["GunYu.Props.C07"],
-    "required_theorems": ['GunYu.Props.C07.cp_boundary', 'GunYu.Props.C07.cp_boundary_fresh', 'GunYu.Props.C07.cp_monotone', 'GunYu.Props.C07.restart_monotone', 'GunYu.Props.C07.idle_stores_nothing_fresh', 'GunYu.Props.C07.restart_never_lowers_position', 'GunYu.Props.C07.restarts_monotone', 'GunYu.Props.C07.resumed_items_not_below_start'],
+    "required_theorems": ['GunYu.Props.C07.cp_boundary', 'GunYu.Props.C07.cp_boundary_fresh', 'GunYu.Props.C07.cp_monotone', 'GunYu.Props.C07.restart_monotone', 'GunYu.Props.C07.idle_stores_nothing_fresh', 'GunYu.Props.C07.restart_never_lowers_position', 'GunYu.Props.C07.restarts_monotone', 'GunYu.Props.C07.resumed_items_not_below_start', 'GunYu.Props.C07.cp_offset_has_runid', 'GunYu.Props.C07.parser_items_selOK'],
     "expected_facts": {"sender_src": {
         "pkg/redis/checkpoint/checkpoint.go:GetCheckpoint": "50a563812be29664",
         "pkg/redis/checkpoint/checkpoint.go:fetchCheckpoint": "88bc56bddceba24b",
